@@ -19,7 +19,41 @@ func init() {
 	engines["C13"] = &engine{N: tierN(240000, 10000000), Setup: selfTest, Case: c13Case}
 }
 
+// c13TopDecadeF: the f layout of a value in the top decade of the exponent range (one per run: 2 GiB of output, a few
+// seconds). d.ddd x 10^(MaxExp-1) printed with f and no fraction digits is MaxExp digits long and starts with x's digits.
+func c13TopDecadeF(c *hx.Ctx, r *hx.RNG) {
+	n := r.Range(1, 30)
+	v := r.Finite(n, oracle.MaxExp)
+	x := hx.Mk(v, uint(n), r.Mode())
+	prec := []int{0, 0, 1, 3}[r.Intn(4)]
+	what := fmt.Sprintf("len(Append(nil, 'f', %d)) of %s", prec, v.Full())
+	c.Note(what)
+	var out []byte
+	pi := hx.Try(func() { out = x.Append(nil, 'f', prec) })
+	c.Eval(hx.HashStr(what), true, "model/f/top-decade-2GiB")
+	if pi != nil {
+		c.Violate("panic", fmt.Sprintf("%s: %s panic %q at %s", what, pi.Class, pi.Text, pi.Stack), "")
+		return
+	}
+	want := int(oracle.MaxExp)
+	if v.Neg {
+		want++
+	}
+	if prec > 0 {
+		want += 1 + prec
+	}
+	head := strings.TrimLeft(string(out[:minInt(len(out), 40)]), "-")
+	ds := v.Coef.String()
+	if len(out) != want || !strings.HasPrefix(head, ds) || (len(head) > len(ds) && head[len(ds)] != '0') {
+		c.Violate("model-differs", fmt.Sprintf("%s = %d bytes starting %q, want %d bytes starting with the digits %s and going on with zeros", what, len(out), head, want, ds), "")
+	}
+}
+
 func c13Case(c *hx.Ctx, r *hx.RNG, idx int64) {
+	if idx%4000000 == 29 {
+		c13TopDecadeF(c, r)
+		return
+	}
 	if r.Chance(55) {
 		c13Differential(c, r)
 	} else {
